@@ -647,3 +647,36 @@ def owns_values(chk, rule):
         chk.ob(rule, "%s:%s.reset_values{owns values}" % (ci.module.relpath, ci.name), "the stored values are a fresh array (a copy of the argument)",
                v is not None and not pt, derived="origin %s" % (sorted(v.origin) if v is not None else None), loc=rv.loc(),
                inconclusive=(not pt and unknown))
+
+
+_PINSIG = None
+
+
+def positional_order(chk, rule, quals):
+    """Callers may pass arguments by position: the positional parameters a public entry point had on the pinned tree keep their relative order,
+    and a new positional parameter comes after all of them (a new keyword inserted in front, or two parameters swapped "to line up with a sibling",
+    silently rebinds every positional call)."""
+    global _PINSIG
+    import json as _json, os as _os
+    if _PINSIG is None:
+        with open(_os.path.join(_os.path.dirname(_os.path.abspath(__file__)), "pinned_signatures.json"), encoding="utf-8") as fh:
+            _PINSIG = _json.load(fh)
+    for q in quals:
+        pin = _PINSIG.get(q)
+        try:
+            fi = chk.P.fn(q)
+        except Exception:
+            fi = None
+        if pin is None or fi is None:
+            continue
+        cur = list(fi.params)
+        if fi.cls is not None and cur and cur[0] in ("self", "cls"):
+            cur = cur[1:]
+        kept = [p for p in pin if p in cur]
+        pos = [cur.index(p) for p in kept]
+        in_order = pos == sorted(pos)
+        first_new = min([k for k, p in enumerate(cur) if p not in pin], default=len(cur))
+        new_last = all(k < first_new for k in pos)
+        chk.ob(rule, "%s:%s{positional order}" % (fi.module.relpath, fi.qualname.split(".", 1)[1]),
+               "the positional parameters keep the order callers rely on (%s)" % ", ".join(pin), in_order and new_last,
+               derived="now (%s)" % ", ".join(cur), loc=fi.loc(), nontrivial=False)
